@@ -2154,6 +2154,7 @@ class sptensor:
         if isinstance(item, tuple) and len(item) == self.ndims:
             # Extract the subdimensions to be extracted from self
             region = []
+            repeated: Dict[int, np.ndarray] = {}
             for dim, value in enumerate(item):
                 if isinstance(value, (int, np.integer)) and value < 0:
                     value = self.shape[dim] + value  # noqa: PLW2901
@@ -2166,6 +2167,14 @@ class sptensor:
                     value = [  # noqa: PLW2901
                         int(v + self.shape[dim]) if v < 0 else int(v) for v in value
                     ]
+                if (
+                    isinstance(value, (list, tuple, np.ndarray))
+                    and len(np.unique(value)) < len(value)
+                ):
+                    # A position named more than once is read once and
+                    # replicated into every place that names it (below)
+                    repeated[dim] = np.asarray(value)
+                    value = [int(v) for v in np.unique(value)]  # noqa: PLW2901
                 region.append(value)
 
             # Pare down the list of subscripts (and values) to only
@@ -2221,6 +2230,19 @@ class sptensor:
                 a = sptensor(shape=tuple(np.array(shape)[kpdims]))
             else:
                 a = sptensor(subs[:, kpdims], vals, tuple(np.array(shape)[kpdims]))
+            for dim, value in repeated.items():
+                k = int(np.flatnonzero(kpdims == dim)[0])
+                newshape = list(a.shape)
+                newshape[k] = len(value)
+                if a.nnz == 0:
+                    a = sptensor(shape=tuple(newshape))
+                    continue
+                # (entry, place) pairs where the place names the entry's position
+                wanted = np.searchsorted(np.unique(value), value)
+                rows, places = np.nonzero(a.subs[:, k][:, None] == wanted[None, :])
+                newsubs = a.subs[rows, :]
+                newsubs[:, k] = places
+                a = sptensor(newsubs, a.vals[rows], tuple(newshape))
             return a
 
         # Case 2:
